@@ -98,6 +98,14 @@ def program(draw):
     steps = [{'op': 'define', 'cls': c['name']} for c in classes]
     if mixin:
         steps.insert(0, {'op': 'define', 'cls': 'Mix'})
+    unrelated = None
+    cand = [p for p in root['params'] if numeric_leaf(p['T']) and p['T']['k'] != 'array']
+    if cand and draw(st.integers(0, 2)) == 0:
+        # an unrelated class whose parameter is declared with the very same datatype object as a parameter of the root class
+        # (a module level constant like UInt8), plus a datatype keyword of its own
+        p = draw(st.sampled_from(cand))
+        unrelated = {'shares': p['name'], 'max': draw(st.sampled_from([2, 77, 5000])), 'default': p['default']}
+        steps.insert(draw(st.integers(0, len(steps))), {'op': 'define', 'cls': 'Z'})
     ninst = draw(st.integers(1, 4))
     for i in range(ninst):
         cname = draw(st.sampled_from([c['name'] for c in classes]))
@@ -121,7 +129,7 @@ def program(draw):
             m['T'] = draw(LEAF)
         steps.append(m)
     order = draw(st.lists(st.integers(0, 1000), min_size=len(steps), max_size=len(steps)))
-    return {'kind': 'program', 'classes': classes, 'mixin': mixin, 'steps': steps, 'order': order}
+    return {'kind': 'program', 'classes': classes, 'mixin': mixin, 'unrelated': unrelated, 'steps': steps, 'order': order}
 
 
 @st.composite
@@ -155,6 +163,7 @@ class World:
         self.prog = prog
         self.tag = tag
         self.classes = {}
+        self.constants = {}
         self.instances = {}
         self.log = logging.getLogger('c09')
         self.srv = type('Srv', (), {})()
@@ -168,11 +177,15 @@ class World:
             attrs = {pn: self.make_override(o) for pn, o in self.prog['mixin']['overrides'].items()}
             self.classes[name] = type('Mix', (), attrs)
             return
+        if name == 'Z':
+            u = self.prog['unrelated']
+            self.classes[name] = type('Z', (Module,), {'z': Parameter('unrelated', self.constant(u['shares']), max=u['max'], default=u['default'])})
+            return
         c = next(c for c in self.prog['classes'] if c['name'] == name)
         if not c['bases']:
             attrs = {}
             for p in c['params']:
-                attrs[p['name']] = Parameter(f"root {p['name']}", specs.build(p['T']), default=p['default'], readonly=p['readonly'])
+                attrs[p['name']] = Parameter(f"root {p['name']}", self.constant(p['name']), default=p['default'], readonly=p['readonly'])
 
             def cmd(self):
                 """root command"""
@@ -195,6 +208,13 @@ class World:
         for p in c.get('new', []):
             attrs[p['name']] = Parameter(f"new {p['name']}", specs.build(p['T']), default=p['default'], readonly=False)
         self.classes[name] = type(name, tuple(self.classes[b] for b in c['bases']), attrs)
+
+    def constant(self, pname):
+        """the datatype object (one per world, like a module level constant) the root parameter pname is declared with"""
+        if pname not in self.constants:
+            T = next(p['T'] for p in self.prog['classes'][0]['params'] if p['name'] == pname)
+            self.constants[pname] = specs.build(T)
+        return self.constants[pname]
 
     def make_override(self, o):
         from frappy.core import Parameter
@@ -441,6 +461,8 @@ def valid_program(prog):
             if not c['bases'] or c['bases'][-1] not in names[:i] or (len(c['bases']) > 1 and (c['bases'][:-1] != ['Mix'] or not prog['mixin'])):
                 return False
         defined = [s['cls'] for s in prog['steps'] if s['op'] == 'define']
+        if ('Z' in defined) != bool(prog.get('unrelated')):
+            return False
         return all(n in defined for n in names) and (not prog['mixin'] or 'Mix' in defined) and not prog['classes'][0]['bases']
     except (KeyError, TypeError, IndexError):
         return False
